@@ -246,6 +246,7 @@ package app
 //@   requires state != nil
 //@   modifies *
 //@   calls updateAll requires [C18:update_only_after_successful_load] loadOK
+//@   calls updateAll requires [C11:new_routes_go_live_only_after_their_token_allowlists_loaded] loadOK
 //@   ensures [C18:failure_returns_running_config] !result1 ==> result0 == running
 //@   ensures [C18:failure_enters_no_write_section] !result1 ==> writeSections == old(writeSections)
 //@   ensures [C18:success_switches_in_one_write_section] result1 ==> writeSections == old(writeSections) + 1
